@@ -1,0 +1,73 @@
+//  Copyright (c) 2026 verification harness
+//
+//  SPDX-License-Identifier: BSL-1.0
+//  Distributed under the Boost Software License, Version 1.0. (See accompanying
+//  file LICENSE_1_0.txt or copy at http://www.boost.org/LICENSE_1_0.txt)
+
+// Observation/perturbation points for external runtime monitors. Everything in
+// this header is inert unless PIKA_VERIF_HOOKS is defined: PIKA_VERIF_POINT
+// then expands to a relaxed load of one function pointer and, if a handler is
+// installed, a call to it. The handler must not call back into pika.
+
+#pragma once
+
+#if defined(PIKA_VERIF_HOOKS)
+# include <pika/config/export_definitions.hpp>
+
+# include <atomic>
+# include <cstdint>
+
+namespace pika::verif {
+    using handler_t = void (*)(
+        std::uint32_t site, void const* obj, std::uint64_t a, std::uint64_t b) noexcept;
+
+    PIKA_EXPORT extern std::atomic<handler_t> handler;
+
+    inline void point(std::uint32_t site, void const* obj = nullptr, std::uint64_t a = 0,
+        std::uint64_t b = 0) noexcept
+    {
+        if (auto h = handler.load(std::memory_order_relaxed)) h(site, obj, a, b);
+    }
+
+    // clang-format off
+    enum site : std::uint32_t
+    {
+        none = 0,
+        // scheduling loop (obj = thread_data*, a = worker)
+        sched_before_run, sched_after_run, sched_cas_lost, sched_store_lost, sched_after_store,
+        sched_resched_active, sched_steal,
+        // thread queues (obj = thread_data* or queue)
+        tq_schedule, tq_get_next, tq_add_new, tq_stage, tq_create_new, tq_reuse, tq_recycle,
+        tq_destroy,
+        // suspend/resume path (obj = thread_data*)
+        yield_before_switch, sts_before_cas, sts_before_schedule, sts_active_helper, sas_entry,
+        sas_abort,
+        // synchronization primitives (obj = primitive)
+        cv_wait_enqueued, cv_wait_timed_enqueued, cv_notify_one, cv_notify_all,
+        mtx_lock_wait, mtx_timed_wait, mtx_unlock_notify,
+        sem_wait, sem_wait_timed, sem_signal_mid,
+        latch_zero_before_lock, latch_before_notify,
+        barrier_between_cas, barrier_after_completion,
+        once_after_status_done, once_after_status_reset,
+        // sender adaptors with shared state (a = 0 split, 1 ensure_started, 2 split_tuple;
+        // b = 0 before lock, 1 inline fast, 2 inline after lock, 3 stored)
+        ss_done, ss_add, when_all_finish,
+        // index queue
+        ciq_pop_left, ciq_pop_right,
+        // pika::thread
+        join_between, exit_callbacks,
+        // stop_token
+        stop_before_cas, stop_dequeued, stop_executed, stop_remove_after_unlink,
+        // runtime life cycle
+        gac_inc, gac_dec, tm_wait_pred,
+        // processing unit suspension
+        pu_suspend, pu_resume, select_active_pu,
+        site_count
+    };
+    // clang-format on
+}    // namespace pika::verif
+
+# define PIKA_VERIF_POINT(...) ::pika::verif::point(__VA_ARGS__)
+#else
+# define PIKA_VERIF_POINT(...) ((void) 0)
+#endif
